@@ -11,7 +11,7 @@ From Coq Require Import List NArith ZArith Bool Lia.
 Import ListNotations.
 From LV Require Import Model.Base Model.Template Model.Eval Model.Derived Model.EvalRun Proofs.BaseProofs Proofs.EvalProofs Proofs.EvalInd Proofs.EvalUnfold Proofs.FingerprintProofs.
 From LV Require Import Proofs.DatasetClassProofs.
-From LV Require Import Proofs.FrameProofs Proofs.FrameTheorem Proofs.RestrictProofs Proofs.SufficientProofs.
+From LV Require Import Proofs.FrameProofs Proofs.TemplateFrame Proofs.FrameTheorem Proofs.RestrictProofs Proofs.SufficientProofs.
 
 (** ** 1. the boolean side condition *)
 Lemma names_only_good k : names_only k = true -> forallb is_name k = true /\ k <> [].
@@ -53,12 +53,12 @@ Section Clean.
 
   (** ** 2. restriction to a covering key set *)
   Theorem eval_sufficient e o K :
-    frag e = true -> wf_dict o = true -> good_keys K -> RR K o (snd (evalN e o tt)) ->
+    frag e = true -> wf_dict o = true -> no_par o = true -> good_keys K -> RR K o (snd (evalN e o tt)) ->
     effects_opt_off (restrict o K) = effects_opt_off o ->
     obs (evalN e (restrict o K) tt) = obs (evalN e o tt).
   Proof.
-    intros Hf Hw Hg Hrv Hsw.
-    destruct (frame_all u fuel e Hf o (restrict o K) Hw (wf_restrict o K Hw) Hsw) as (E & _ & _).
+    intros Hf Hw Hnp Hg Hrv Hsw.
+    destruct (frame_all u fuel e Hf o (restrict o K) Hw (wf_restrict o K Hw) Hnp (no_par_restrict o K Hnp) Hsw) as (E & _ & _).
     apply E. now apply agree_restrict.
   Qed.
 
@@ -69,7 +69,7 @@ Section Clean.
 
   (** ** 3. same values under a covering, present key set: same outcome *)
   Theorem same_reported_same_outcome e o o' K :
-    frag e = true -> wf_dict o = true -> wf_dict o' = true ->
+    frag e = true -> wf_dict o = true -> wf_dict o' = true -> no_par o = true -> no_par o' = true ->
     good_keys K -> all_present K o ->
     (forall k, In k K -> lookup k (JObj o') = lookup k (JObj o)) ->
     RR K o (snd (evalN e o tt)) -> RR K o' (snd (evalN e o' tt)) ->
@@ -78,16 +78,16 @@ Section Clean.
     effects_opt_off o' = effects_opt_off o ->
     fst (fst (evalN e o' tt)) = fst (fst (evalN e o tt)).
   Proof.
-    intros Hf Hw Hw' Hg Hp Hsame Hrv Hrv' Hs1 Hs2 Hs3.
+    intros Hf Hw Hw' Hnp Hnp' Hg Hp Hsame Hrv Hrv' Hs1 Hs2 Hs3.
     assert (Hp' : all_present K o').
     { intros k Hin. destruct (Hp k Hin) as [v Hv]. exists v. now rewrite (Hsame k Hin). }
-    pose proof (eval_sufficient e o K Hf Hw Hg Hrv Hs1) as E1.
-    pose proof (eval_sufficient e o' K Hf Hw' Hg Hrv' Hs2) as E2.
+    pose proof (eval_sufficient e o K Hf Hw Hnp Hg Hrv Hs1) as E1.
+    pose proof (eval_sufficient e o' K Hf Hw' Hnp' Hg Hrv' Hs2) as E2.
     set (R := restrict o K) in *. set (R' := restrict o' K) in *.
     assert (Hrep : reported_ok o K) by now apply reported_ok_of.
     assert (Hrep' : reported_ok o' K) by now apply reported_ok_of.
     assert (HsR : effects_opt_off R' = effects_opt_off R) by congruence.
-    destruct (frame_all u fuel e Hf R R' (wf_restrict o K Hw) (wf_restrict o' K Hw') HsR) as (E3 & _ & _).
+    destruct (frame_all u fuel e Hf R R' (wf_restrict o K Hw) (wf_restrict o' K Hw') (no_par_restrict o K Hnp) (no_par_restrict o' K Hnp') HsR) as (E3 & _ & _).
     assert (Hag : agree_keys R R' (reads_of (snd (evalN e R tt)))).
     { assert (Hreads : reads_of (snd (evalN e R tt)) = reads_of (snd (evalN e o tt))).
       { unfold obs in E1. cbn [fst snd] in E1.
@@ -135,13 +135,13 @@ Section Clean.
     forall K, fst (fst (keysN e o tt)) = Ok K -> effects_opt_off (restrict o K) = effects_opt_off o.
 
   Theorem equal_fingerprint_equal_outcome e o o' f :
-    frag e = true -> wf_dict o = true -> wf_dict o' = true ->
+    frag e = true -> wf_dict o = true -> wf_dict o' = true -> no_par o = true -> no_par o' = true ->
     clean_at u fuel e o = true -> clean_at u fuel e o' = true ->
     esw_stable e o -> esw_stable e o' -> effects_opt_off o' = effects_opt_off o ->
     fingerprintN e o = Ok f -> fingerprintN e o' = Ok f ->
     fst (fst (evalN e o' tt)) = fst (fst (evalN e o tt)).
   Proof.
-    intros Hf Hw Hw' Hc Hc' He1 He2 He3 Hfp Hfp'. unfold fingerprintN in *.
+    intros Hf Hw Hw' Hnp Hnp' Hc Hc' He1 He2 He3 Hfp Hfp'. unfold fingerprintN in *.
     destruct (keysN e o tt) as [[[K|c ee] []] lk] eqn:Hk; [|discriminate].
     destruct (keysN e o' tt) as [[[K'|c ee] []] lk'] eqn:Hk'; [|discriminate].
     destruct (clean_at_spec e o K lk Hc Hk) as (Hg & Hrv & _).
@@ -156,7 +156,7 @@ Section Clean.
     assert (Hr2 : effects_opt_off (restrict o' K') = effects_opt_off o') by (apply He2; now rewrite Hk').
     assert (HKK : restrict o' K = restrict o' K').
     { apply restrict_ext. intros k. apply Hmem. }
-    apply (same_reported_same_outcome e o o' K Hf Hw Hw' Hg).
+    apply (same_reported_same_outcome e o o' K Hf Hw Hw' Hnp Hnp' Hg).
     - intros k Hk0. assert (Hin : In k (map fst f)) by (rewrite Hm; now apply key_sort_In).
       destruct (In_fst_map _ _ Hin) as [v Hvf]. exists v. now apply Hv.
     - intros k Hk0. assert (Hin : In k (map fst f)) by (rewrite Hm; now apply key_sort_In).
@@ -170,13 +170,13 @@ Section Clean.
 
   (** ** C03: keys() is sufficient, with the boolean side condition *)
   Theorem keys_sufficient_clean e o K lk :
-    frag e = true -> wf_dict o = true -> clean_at u fuel e o = true ->
+    frag e = true -> wf_dict o = true -> no_par o = true -> clean_at u fuel e o = true ->
     keysN e o tt = (Ok K, tt, lk) ->
     effects_opt_off (restrict o K) = effects_opt_off o ->
     obs (evalN e (restrict o K) tt) = obs (evalN e o tt) /\
     obs (keysN e (restrict o K) tt) = obs (keysN e o tt).
   Proof.
-    intros Hf Hw Hc Hk Hsw. destruct (clean_at_spec e o K lk Hc Hk) as (Hg & Hrv & Hrk).
+    intros Hf Hw Hnp Hc Hk Hsw. destruct (clean_at_spec e o K lk Hc Hk) as (Hg & Hrv & Hrk).
     destruct (evalN e o tt) as [[rv []] lv] eqn:He. cbn [snd] in Hrv.
     rewrite <- He. eapply keys_sufficient; eauto.
   Qed.
